@@ -81,8 +81,11 @@ func (bi *BodyInspector) Inspect(ctx context.Context, r *http.Request, profile *
 	}
 
 	// Restore the body for downstream handlers by creating a new reader that combines
-	// what we've already read with any remaining unread content
-	r.Body = io.NopCloser(io.MultiReader(bytes.NewReader(buffer.Bytes()), r.Body))
+	// what we've already read with any remaining unread content. The bytes must be
+	// copied out of the pooled buffer: it is reset and handed to another request as
+	// soon as we return, while this request's body is only read later by the proxy.
+	inspected := append([]byte(nil), buffer.Bytes()...)
+	r.Body = io.NopCloser(io.MultiReader(bytes.NewReader(inspected), r.Body))
 
 	modelName := bi.extractModelName(buffer.Bytes())
 	if modelName != "" {
